@@ -75,6 +75,10 @@ def run_stream(spec, stream, fail_at, nid, mode, val):
                 out.append(core.v_exc(PROP, "fault", "healthy record raised", e, args, {"step": i}))
                 return out, nraised
             survivors.append((r, w))
+    if any(w not in (1.0, 0.5, 2.0) for _, w in stream):
+        # weights such as 0.1: float sums round, the exact reference does not; "unchanged by a fill that raised" above
+        # was compared bit for bit and is the whole oracle here
+        return out, nraised
     d = core.ref_diff(h, spec, survivors, drop_names=True)
     if d:
         out.append(core.v_diff(PROP, "fault", "final state differs from the aggregate of the surviving records", d,
@@ -186,6 +190,20 @@ def _tree(task):
                             acc.n("subsets_of_size_%d" % size)
                             if size:
                                 acc.distinct("cases", FW.hkey((S.key(spec), nid, mode, repr(val), seq, fail_at)))
+    # the same with weights whose sums round (an "add, then subtract again on failure" is only exact for dyadic weights)
+    W = (0.1, 0.2, 0.7)
+    for nid, node in nodes:
+        for k in (2, 3) if tier != "quick" else (2,):
+            for seq in itertools.product(range(min(len(evs), 3)), repeat=k):
+                stream = [(evs[i][0], W[j]) for j, i in enumerate(seq)]
+                for size in range(1, k + 1):
+                    for fail_at in itertools.combinations(range(k), size):
+                        vs, nr = run_stream(spec, stream, set(fail_at), nid, "raise", None)
+                        acc.add(vs)
+                        acc.n("executions")
+                        acc.n("executions_with_rounding_weights")
+                        acc.n("faults_injected", size)
+                        acc.n("faults_that_raised", nr)
     # missing-field failures of string-expression quantities (no injected wrapper: the library's own evaluation)
     if not any(n.get("qk") or n.get("tr") for _, _, n in S.node_ids(spec)):
         for field in sorted(S.fields(spec)):
